@@ -37,7 +37,7 @@ def run(chk):
     jobs = []      # (module, name, trace, env for TLC)
     nchild = 0
     for mode in ('1', '2'):
-        runs, skipped = c11.kernel_traces(chk, exe, 'c12_g%s' % mode, extra_args=['--lite'], env={'RQV_GUARD': mode})
+        runs, skipped = c11.kernel_traces(chk, exe, 'c12_g%s' % mode, extra_args=['--lite', '--isolate'], env={'RQV_GUARD': mode})
         for name, trace, rc, txt in runs:
             nchild += 1
             if rc != 0:
